@@ -1,4 +1,5 @@
 import FCA.Generated.Validate
+import FCA.Generated.FromdictRow
 import FCA.Props.C19
 import FCA.Proofs.Defn
 /-
@@ -70,6 +71,54 @@ theorem C19_generated_ctxOfTriple (os ps : List Name) (bools : List (List Bool))
   unfold ctxOfTriple
   cases ctorAccepts os ps (bools.map (·.length)) <;> simp
 
+/-! ### `Context.fromdict`: the row validator `_make_set` and the cells, regenerated from the current source -/
+
+/-- `_make_set(r)` of the current source raises exactly when the model's row test (`rowOk` in `fromdictCheck`: no repeated index,
+every index in `0 ≤ i < len(properties)` — negative indexes included) fails -/
+theorem C19_generated_fromdict_row (np : Nat) (r : List Int) :
+    Generated.fromdict_rowRejects np r =
+      !(r.eraseDups.length == r.length && r.all fun i => decide (0 ≤ i) && decide (i < (np : Int))) := by
+  have h : (r.eraseDups.all ((List.range np).map Int.ofNat).contains) = r.all fun i => decide (0 ≤ i) && decide (i < (np : Int)) := by
+    rw [Bool.eq_iff_iff]
+    simp only [List.all_eq_true, List.mem_eraseDups, List.contains_iff_mem, List.mem_map, List.mem_range, Bool.and_eq_true, decide_eq_true_eq]
+    constructor
+    · intro h x hx
+      obtain ⟨a, ha, rfl⟩ := h x hx
+      exact ⟨by simp, by simpa using ha⟩
+    · intro h x hx
+      obtain ⟨h0, h1⟩ := h x hx
+      exact ⟨x.toNat, by omega, by simp; omega⟩
+  simp only [Generated.fromdict_rowRejects]
+  rw [h]
+  simp only [bne, Bool.not_and]
+
+theorem C19_generated_fromdict_cells (np : Nat) (r : List Int) :
+    Generated.fromdict_rowCells np r = (List.range np).map fun (j : Nat) => r.contains (Int.ofNat j) := by
+  simp only [Generated.fromdict_rowCells]
+  apply List.map_congr_left
+  intro j _
+  rw [Bool.eq_iff_iff]
+  simp [List.mem_eraseDups]
+
+/-- all rows: `fromdictCheck` goes on iff no row is rejected by the regenerated validator, and the cells it builds are the
+regenerated ones -/
+theorem C19_generated_fromdict_rows (np : Nat) (context : List (List Int)) :
+    (context.all fun r => r.eraseDups.length == r.length && r.all fun i => decide (0 ≤ i) && decide (i < (np : Int))) =
+      !(context.any (Generated.fromdict_rowRejects np)) ∧
+    (context.map fun r => (List.range np).map fun (j : Nat) => r.contains (Int.ofNat j)) =
+      context.map (Generated.fromdict_rowCells np) := by
+  constructor
+  · induction context with
+    | nil => simp
+    | cons r rs ih =>
+      simp only [List.all_cons, List.any_cons, ih, C19_generated_fromdict_row, Bool.not_or, Bool.not_not]
+  · apply List.map_congr_left
+    intro r _
+    exact (C19_generated_fromdict_cells np r).symm
+
 end FCA
 #print axioms FCA.C19_generated_ctor
 #print axioms FCA.C19_generated_ctxOfTriple
+#print axioms FCA.C19_generated_fromdict_row
+#print axioms FCA.C19_generated_fromdict_cells
+#print axioms FCA.C19_generated_fromdict_rows
